@@ -22,6 +22,9 @@ def feature_matrix(ctx, mod):
             ctx.note('feature config %s could not be extracted: %s' % (cfg, str(e).splitlines()[0]))
             continue
         prog = analysis.Prog(facts.load_dir(d))
+        if os.environ.get('DP_NO_NORMALISE') != '1':
+            from . import inline
+            inline.normalise(prog, inline.DEADPOOL_CRATES, inline.default_keep(prog))
         sub = engine.Ctx(ctx.prop, ctx.tier, prog, info)
         # role caches are per Prog
         try:
@@ -121,9 +124,42 @@ def seeded_selftest(ctx):
     ctx.counters['seeds_run'] = len(detected) + len(missed)
 
 
+def refactor_selftest(ctx):
+    """apply the independently written behaviour-preserving refactorings (selftest/refactors/<id>/patch.diff) to scratch
+    copies under /tmp and record whether this property's check stays quiet on them (evidence only)"""
+    import glob, shutil, tempfile
+    refs = sorted(x for x in glob.glob(os.path.join(VERIF, 'selftest', 'refactors', '*')) if os.path.exists(os.path.join(x, 'patch.diff')))
+    if not refs:
+        return
+    quiet = []; loud = []; skipped = []
+    base = tempfile.mkdtemp(prefix='dpref_', dir='/tmp')
+    try:
+        cache = os.path.join(base, 'cache')
+        os.makedirs(cache)
+        src = os.path.join(extract.CACHE, 'target')
+        if os.path.isdir(src):
+            subprocess.run(['cp', '-a', src, os.path.join(cache, 'target')], check=False)
+        for s in refs:
+            rid = os.path.basename(s)
+            work = os.path.join(base, rid)
+            subprocess.run(['rsync', '-a', '--exclude', '/target', '--exclude', '.git', extract.REPO + '/', work + '/'], check=True)
+            r = subprocess.run(['patch', '-p1', '-s', '-i', os.path.join(s, 'patch.diff')], cwd=work, capture_output=True, text=True)
+            if r.returncode != 0:
+                skipped.append(rid); shutil.rmtree(work, ignore_errors=True); continue
+            env = dict(os.environ, DP_REPO=work, DP_CACHE=cache)
+            c = subprocess.run([os.path.join(VERIF, 'check'), ctx.prop, '--tier', 'quick', '--no-evidence'], env=env, capture_output=True, text=True)
+            (quiet if c.returncode == 0 else loud).append(rid)
+            shutil.rmtree(work, ignore_errors=True)
+    finally:
+        shutil.rmtree(base, ignore_errors=True)
+    ctx.info.setdefault('extra', {})['refactor_selftest'] = {'quiet': quiet, 'not_quiet': loud, 'patch_no_longer_applies': skipped}
+    ctx.counters['refactorings_run'] = len(quiet) + len(loud)
+
+
 def run(ctx, mod):
     feature_matrix(ctx, mod)
     witnesses(ctx)
     if os.environ.get('DP_SKIP_SELFTEST') != '1':
         mutant_selftest(ctx)
         seeded_selftest(ctx)
+        refactor_selftest(ctx)
